@@ -146,6 +146,7 @@ MUTANTS["C16"] = [
     ("diff-worker-diffs-new-against-new", "annet/diff.py", "            diff_tree = patching.make_diff(\n                old,", "            diff_tree = patching.make_diff(\n                new,"),
     ("diff-printer-forgets-moved-rows", "annet/annlib/diff.py", "    ops = [(order, op) for op, order in ops_order.items()]\n    ops.sort()\n    for (raw_rule, content) in pre.items():", "    ops = [(order, op) for op, order in ops_order.items() if op != Op.MOVED]\n    ops.sort()\n    for (raw_rule, content) in pre.items():"),
     ("cisco-vlandb-expansion-shared-and-updated-in-place", "annet/rulebook/cisco/vlandb.py", "    prefix = None\n    vlandb = set()\n    blocks = {}", "    prefix = None\n    vlandb = _parse_vlancfg_actions.__dict__.setdefault('cache', {}).setdefault(tuple(a['row'] for a in actions), set())\n    blocks = {}"),
+    ("file-patch-ignores-add-comments", "annet/api/__init__.py", "        _, __, ___, patch_tree = _read_old_new_diff_patch(old, new, hw, args.add_comments)", "        _, __, ___, patch_tree = _read_old_new_diff_patch(old, new, hw, False)"),
 ]
 
 MUTANTS["C20"] = [
